@@ -46,6 +46,10 @@ enum Case {
     /// file deleted; records keep their validity, without HAVE_DATA / HAVE_UNDO and without file positions; `witness_flag`:
     /// the pruned records also carry BLOCK_OPT_WITNESS), read with --verify --start pruned+delta: must pass
     Pruned { coin: &'static str, pruned: u64, delta: u64, witness_flag: bool },
+    /// the prev-hash field of the stored block at `height` names ANOTHER block the index knows at height-1 - a stale sibling with
+    /// data (kind 0: never connected, 1: once active and reorganised away, 2: failed) or a header-only record (3) - instead of
+    /// the indexed block of the preceding height: must fail at `height` (the field is not the indexed hash of height-1)
+    PrevToKnownOther { height: u64, kind: u8, start: Option<u64> },
 }
 
 /// Offsets (relative to the block start) of every one-byte CompactSize inside the legacy transactions of a serialised block.
@@ -246,6 +250,15 @@ pub fn run() -> Report {
         cases.push(Case::WrongGenesis { coin: c.name });
     }
     cases.push(Case::ManyFiles);
+    for height in 1..=4u64 {
+        for kind in 0..4u8 {
+            for start in [None, Some(height), Some(1)] {
+                if start.map(|s| s <= height).unwrap_or(true) {
+                    cases.push(Case::PrevToKnownOther { height, kind, start });
+                }
+            }
+        }
+    }
     for cn in ["bitcoin", "litecoin", "dogecoin"] {
         for pruned in 1..=4u64 {
             for delta in 0..=1u64 {
@@ -474,6 +487,46 @@ pub fn run() -> Report {
                     acc.count("swap", 1);
                     if let Some((sig, detail)) = judge_fail(&r, *height) {
                         acc.disagree(&format!("{}:swap", sig), format!("{:?}: {}", c, detail), replay_case(&world, &spec, json!({"must": "fail", "height": height}), &r, &wk.dir));
+                    }
+                }
+                Case::PrevToKnownOther { height, kind, start } => {
+                    use refmodel::world::{ACTIVE, FAILED_VALID, HAVE_DATA, VALID_TRANSACTIONS, VALID_TREE};
+                    let btc = coin("bitcoin");
+                    let cb = chain_with(btc, 2, 5);
+                    let mut world = World::new(btc);
+                    let h = *height as usize;
+                    // the other block at height-1: same parent as the active one, own transactions
+                    let parent = if h >= 2 { cb.blocks[h - 2].hash() } else { [0u8; 32] };
+                    let other = refmodel::ser::Block::build(1, parent, 1_650_000_000, 0x1d00ffff, 99, vec![coinbase(*height - 1, 0xAB, vec![pay(200, 50 * COIN_VALUE)])]);
+                    for (i, b) in cb.blocks.iter().enumerate() {
+                        if i == h {
+                            // stored block: prev-hash field rewritten, everything else (merkle root, transactions) intact
+                            let mut t = b.clone();
+                            t.header.prev = other.hash();
+                            let mut rec = world.add_block(i as u64, i as u64, &t);
+                            // the index still describes the original block of this height
+                            rec.hash = b.hash();
+                            rec.header = b.header.ser();
+                            world.index_ops.pop();
+                            world.put_rec(&rec);
+                        } else {
+                            world.add_block(i as u64, i as u64, b);
+                        }
+                    }
+                    match kind {
+                        0 => { world.add_block_status(9, *height - 1, &other, VALID_TRANSACTIONS | HAVE_DATA); }
+                        1 => { world.add_block_status(9, *height - 1, &other, ACTIVE); }
+                        2 => { world.add_block_status(9, *height - 1, &other, VALID_TRANSACTIONS | HAVE_DATA | FAILED_VALID); }
+                        _ => world.put_rec(&IndexRec { hash: other.hash(), client_version: 270000, height: *height - 1, status: VALID_TREE, ntx: 0, file: 0, data_pos: 0, undo_pos: 0, header: other.header.ser() }),
+                    }
+                    let spec = RunSpec::new("bitcoin", "csvdump").verify(true).range(*start, None);
+                    let r = match wk.world_run(&world, &spec) {
+                        Ok(r) => r,
+                        Err(m) => return acc.machinery(m),
+                    };
+                    acc.count("prev-field-names-another-known-block", 1);
+                    if let Some((sig, detail)) = judge_fail(&r, *height) {
+                        acc.disagree(&format!("{}:prev-field-names-another-known-block", sig), format!("{:?}: {}", c, detail), replay_case(&world, &spec, json!({"must": "fail", "height": height}), &r, &wk.dir));
                     }
                 }
                 Case::Widen { height, nth, width } => {
